@@ -2,6 +2,7 @@ import NdnVerif.Driver.Common
 import NdnVerif.C14.Spec
 import NdnVerif.C14.Table
 import NdnVerif.C14.XXHash
+import NdnVerif.C14.Pattern
 open Ndn Ndn.Driver Ndn.C14
 
 /-- spec state: hashes and encodings seen in this history (implementation outputs only) -/
@@ -135,6 +136,23 @@ def stepC14 (s : S14) (op : String) (got : String) : StepResult S14 :=
       { st := s, expected := some (resComp r),
         cov := [match r with | .ok _ => "cparse-ok" | .err => "cparse-err" | .panic => "cparse-panic"],
         spec := crashSpec "ComponentFromStr" got }
+    | none => bad s
+  | ["pparse", h] =>
+    -- NamePatternFromStr: "err" or the pattern, components as c<type>:<hex>, placeholders as p<type>:<hex tag>
+    match bytesOfHex h with
+    | some b =>
+      let r := namePatFromStr b
+      let showP : CPat → String
+        | .comp c => "c" ++ c.toText
+        | .pat t tag => s!"p{t}:{hexOfBytes tag}"
+      let txt := match r with
+        | .ok [] => "-"
+        | .ok l => "/".intercalate (l.map showP)
+        | .err => "err"
+        | .panic => "PANIC"
+      { st := s, expected := some txt,
+        cov := [match r with | .ok _ => "pparse-ok" | .err => "pparse-err" | .panic => "pparse-panic"],
+        spec := crashSpec "NamePatternFromStr" got }
     | none => bad s
   | ["h", a] =>
     -- the hash VALUE is compared with XXH64 over the model's hash input (ties the framing: 8-byte type,
